@@ -39,6 +39,8 @@ type Expected struct {
 	Impostors []string
 	// OutOfBand: OPR outside the SPR band before 2.0.2 (the block must simply be unrated).
 	OutOfBand bool
+	// MixedPegBatch: a bank-era batch mixing a PEG request with other transactions executed in this block (recorded finding shape).
+	MixedPegBatch bool
 }
 
 func (x *Expected) ev(prop, kind string, a factom.FAAddress, t fat2.PTicker, delta int64, ref string, supply bool) {
@@ -431,6 +433,9 @@ sprDone:
 			for i := L; i < h; i++ {
 				var group []pegReq
 				for _, p := range byHeight[i] {
+					if h >= e.ConversionLimit && h < e.V20 && p.Batch.HasPEGRequest() && len(p.Batch.Transactions) > 1 {
+						x.MixedPegBatch = true
+					}
 					out := m.applyBatch(x, B, p.Batch, p.Entry, obs, avgs, h, true)
 					if out.Code > 0 && h >= e.ConversionLimit && h < e.V20 {
 						for ti, tx := range p.Batch.Transactions {
